@@ -192,12 +192,12 @@
             _ => assert!(false),
         }
         kani::cover!(want == Some(N - 1));
-        kani::cover!(want.is_none() && N > 1 && t > e[0].tile_id && t < e[N - 1].tile_id);
+        kani::cover!(N < 2 || (want.is_none() && t > e[0].tile_id && t < e[N - 1].tile_id));
         kani::cover!(e[0].run_length == 0 && t == e[0].tile_id);
         std::mem::forget(d);
     }
 
-// @h id=H19.2-N$n prop=C19 rep="n:1-2" quick="1-2" cap=1500 mem=12 unwind=12 bounds="N=$n entries, otherwise valid, with length 0 at a symbolic index i < N; max-width image for the parser"
+// @h id=H19.2-N$n prop=C19 rep="n:1-2" quick="1-2" cap=900 mem=12 unwind=12 bounds="N=$n entries, otherwise valid, with length 0 at a symbolic index i < N; max-width image for the parser"
     /// a directory containing an entry of length 0 is refused by the parser and by the serialiser, at every index
     #[kani::proof]
     fn h19_2_zero_length_n$n() {
@@ -228,5 +228,34 @@
         kani::cover!(idx == 0);
         std::mem::forget(r);
         std::mem::forget(r2);
+        std::mem::forget(d);
+    }
+
+// @h id=H5.1-N$n prop=C05 rep="n:0-2" quick="0-2" cap=900 mem=14 unwind=12 uw="h5_1_encode=63" bounds="N=$n entries; every valid entry list; output compared byte for byte with the spec reference encoder"
+    /// the uncompressed serialisation is byte-for-byte the PMTiles v3 encoding (equals an independent encoder's output)
+    #[kani::proof]
+    fn h5_1_encode_vs_ref_n$n() {
+        const N: usize = $n;
+        const M: usize = 1 + 30 * N;
+        let e = any_entries::<N>();
+        assume_valid(&e);
+        let d = to_dir(&e);
+        let mut out = [0u8; M];
+        let mut wtr = FixW::new(&mut out, 0);
+        let r = d.to_writer(&mut wtr, Compression::None);
+        assert!(r.is_ok());
+        let n = wtr.pos as usize;
+        let mut want = [0u8; M];
+        let m = vr::ref_encode(&e, &mut want);
+        assert!(n == m);
+        let mut i = 0;
+        while i < M {
+            if i < n { assert!(out[i] == want[i]); }
+            i += 1;
+        }
+        kani::cover!(N < 2 || e[1].offset == e[0].offset + e[0].length as u64);
+        kani::cover!(N < 2 || e[1].offset == 0);
+        kani::cover!(N == 0 || n == M);
+        kani::cover!(N == 0 || n == 1 + 4 * N);
         std::mem::forget(d);
     }
